@@ -723,3 +723,67 @@ Section ESpecProofs.
     intros. apply erun_spec. intros e. repeat split.
   Qed.
 End ESpecProofs.
+
+(** ** At most once for the event registry (OnceEvent), any number of goroutines. *)
+Section EOnce.
+  Variable A : Type.
+  Variable same : A -> A -> bool.
+
+  Lemma interleaving_filter_length : forall X (f : X -> bool) (progs : list (list X)) merged,
+    interleaving progs merged ->
+    length (filter f merged) = length (filter f (concat progs)).
+  Proof.
+    intros X f progs merged HI. induction HI as [progs Hall | pre x p post merged HI IH].
+    - now rewrite (concat_all_nil _ progs Hall).
+    - rewrite !concat_app in *. simpl in *. rewrite !filter_app, !app_length in *. simpl.
+      destruct (f x); simpl; rewrite !filter_app, !app_length in *; lia.
+  Qed.
+
+  Lemma interleaving_forallb : forall X (g : X -> bool) (progs : list (list X)) merged,
+    interleaving progs merged ->
+    Forall (fun p => forallb g p = true) progs -> forallb g merged = true.
+  Proof.
+    intros X g progs merged HI. induction HI as [progs Hall | pre x p post merged HI IH]; intros HF.
+    - reflexivity.
+    - apply Forall_app in HF as [HFpre HFp]. inversion HFp as [|? ? Hxp HFpost]; subst.
+      simpl in Hxp. apply andb_true_iff in Hxp as [Hx Hp]. simpl. rewrite Hx. apply IH.
+      apply Forall_app; split; [assumption|]. constructor; assumption.
+  Qed.
+
+  Definition is_eonce_of (e : N) (P : A -> bool) (o : eop A) : bool :=
+    match o with EOnce e' a => N.eqb e' e && P a | _ => false end.
+  Definition is_eon_of (e : N) (P : A -> bool) (o : eop A) : bool :=
+    match o with EOn e' a => N.eqb e' e && P a | _ => false end.
+
+  Lemma omap_tr_once_count : forall e P (ops : list (eop A)),
+    length (filter (is_once_of P) (omap (tr A e) ops)) = length (filter (is_eonce_of e P) ops).
+  Proof.
+    intros e P ops; induction ops as [|o ops IH]; simpl; [reflexivity|].
+    destruct o as [e' a|e' a|e' hs| |e']; simpl; try (destruct (N.eqb e' e); simpl);
+      try exact IH; try (destruct (P a); simpl; now rewrite IH).
+  Qed.
+
+  Lemma omap_tr_no_on : forall e P (ops : list (eop A)),
+    forallb (fun o => negb (is_eon_of e P o)) ops = true ->
+    forallb (fun o => negb (is_on_or_sub_of P o)) (omap (tr A e) ops) = true.
+  Proof.
+    intros e P ops; induction ops as [|o ops IH]; simpl; [reflexivity|]. intros H.
+    apply andb_true_iff in H as [H1 H2]. specialize (IH H2).
+    destruct o as [e' a|e' a|e' hs| |e']; simpl in *; try (destruct (N.eqb e' e); simpl in * );
+      try exact IH; try (rewrite IH; now rewrite ?H1).
+  Qed.
+
+  Theorem event_once_at_most_once : forall e P (progs : list (list (eop A))) merged,
+    interleaving progs merged ->
+    Forall (fun p => forallb (fun o => negb (is_eon_of e P o)) p = true) progs ->
+    length (filter P (concat (eouts_e A same e merged)))
+    <= length (filter (is_eonce_of e P) (concat progs)).
+  Proof.
+    intros e P progs merged HI HF.
+    rewrite event_as_store.
+    rewrite <- (interleaving_filter_length _ (is_eonce_of e P) progs merged HI).
+    rewrite <- omap_tr_once_count.
+    apply (once_at_most_once A same P).
+    apply omap_tr_no_on. eapply interleaving_forallb; eassumption.
+  Qed.
+End EOnce.
